@@ -440,6 +440,17 @@ fn c11_family<S: Sch>(t: Tier, seed: u64, out: &mut Vec<Entry>) {
         add("prestate-differs", c.clone(), Box::new(|c| c11::prestate::<S>(c, false)), false);
         add("twin-prestate", c, Box::new(|c| c11::prestate::<S>(c, true)), true);
         add("proofs-transposed", mk(conc(2), 2, vec![(0, 0), (1, 1)]), Box::new(|c| c11::swapped::<S>(c)), false);
+        if matches!(name, "ligero-uni" | "ligero-ml" | "brakedown-rec") {
+            // without the well-formedness vector the only transcript-dependent part of a proof is the set of opened positions
+            let mut c = mk(conc(1), 1, vec![(0, 0)]);
+            c.sym_ch = false;
+            c.sz.ligero.2 = false;
+            c.sym_points = false;
+            add("prestate-differs-no-wellformedness", c, Box::new(|c| c11::prestate_mode::<S>(c, false, true)), false);
+            let mut c = mk(conc(2), 2, vec![(0, 0), (1, 1)]);
+            c.sz.ligero.2 = false;
+            add("proofs-transposed-no-wellformedness", c, Box::new(|c| c11::swapped::<S>(c)), false);
+        }
     }
 }
 
@@ -1074,6 +1085,20 @@ fn catalogue_inner(prop: &str, t: Tier, seed: u64, out: &mut Vec<Entry>) {
                 for which in 0..=15usize {
                     if quick && tag == "hide" && ![0usize, 9, 10].contains(&which) { continue; }
                     let c = mkc(Size::uni(3, 3, hid), vec![ps.clone()]);
+                    add(format!("ipa/{}-c{}", tag, which), format!("{:?} {:?}", c.sz, c.polys), Box::new(move || c10::ipa(&c, which)));
+                }
+            }
+            // several polynomials in one opening: a degree-bounded one in front of / behind a plain one (the challenge
+            // schedule of the relation, not only its per-polynomial terms); the replaced component belongs to the first
+            for (tag, first_bounded) in [("bound+plain", true), ("plain+bound", false)] {
+                for which in [0usize, 1, 2, 3] {
+                    let (a, b) = (PolySpec::new(2).conc().bound(2), PolySpec::new(2).conc());
+                    let ps = if first_bounded { vec![a, b] } else { vec![b, a] };
+                    let c = mkc(Size::uni(4, 3, 0), ps.clone());
+                    add(format!("marlin/{}-c{}", tag, which), format!("{:?} {:?}", c.sz, c.polys), Box::new(move || c10::marlin(&c, which)));
+                    let c = mkc(Size::uni(4, 3, 0), ps.clone());
+                    add(format!("sonic/{}-c{}", tag, which), format!("{:?} {:?}", c.sz, c.polys), Box::new(move || c10::sonic(&c, which)));
+                    let c = mkc(Size::uni(3, 3, 0), ps.clone());
                     add(format!("ipa/{}-c{}", tag, which), format!("{:?} {:?}", c.sz, c.polys), Box::new(move || c10::ipa(&c, which)));
                 }
             }
